@@ -4,11 +4,13 @@
                     → res=<r1>,<r2>…;wire=<w1>,<w2>…      r = ok|raised|ignored|died ; w = nk<e> | sr<e> | ua:<kind><e> | ir<e>
     tconn <given|none> <presented> <0|1>    key = <namehex>:<blobhex>      → outcome
     sconn <none | key,key…> <presented> <0|1>                              → outcome
+    cteq <hexa> <hexb>                                                     → 1|0 (constant_time_bytes_eq)
     sconn3 <gss kex negotiated 0|1> <system> <user> <presented> <0|1>      → outcome
     sconn2 <system: none | key,…> <user: none | key,…> <presented> <0|1>   → outcome (system store consulted first)
     name <hosthex> <port>                                                  → hex of the known-hosts name
 -/
 import PV.Model.ClientGuard
+import PV.Model.CtEq
 import PV.Base.DriverIO
 open PV PV.ClientGuard
 
@@ -84,6 +86,10 @@ def stepLine (line : String) : String :=
       if (pol == "1" || pol == "0") && (used == "1" || used == "0") then
         showOutcome (sshClientConnectGss (used == "1") a b c (pol == "1")) else "bad-op"
     | _, _, _ => "bad-op"
+  | ["cteq", a, b] =>
+    match ofHex? a, ofHex? b with
+    | some x, some y => if PV.CtEq.ctEq x y then "1" else "0"
+    | _, _ => "bad-op"
   | ["name", h, port] =>
     match ofHex? h, port.toNat? with
     | some hb, some n => toHexTok (hostKeyName hb n (toString n).toUTF8.toList)
